@@ -23,6 +23,10 @@ def run_check(prop, tier, repo):
         mod.run(check, repo, tier)
         # every obligation is decided on the unchanged tree (confirmed); an obligation the analysis can no longer
         # decide is a construct it does not understand: fail closed, never pass silently
+        from . import driver
+        if driver.UNABSTRACTED:
+            check.floor_failures.append("the analysed object keeps state the analysis cannot abstract: " + "; ".join(sorted(driver.UNABSTRACTED))
+                                        + " -- it was left at its constructor value, so a clean result would not mean anything")
         und = [w for r in check.rules.values() for w in r.get("undecided_list", [])]
         if und and not check.findings:
             check.floor_failures.append(f"{sum(r['undecided'] for r in check.rules.values())} obligation(s) could not be decided, e.g. {und[0][:200]}")
